@@ -119,6 +119,7 @@ class Stats(object):
         self.max_depth = 0
         self.samples = []
         self.kinds = {}
+        self.leftover = []
         self.finals = {}            # final_state digest -> (choices, labels) of the first execution reaching it
 
     def merge(self, o):
@@ -154,14 +155,23 @@ def digest(obj):
 
 
 def explore(run, bound, prefix=(), expect=None, stats=None, deadline=None,
-            max_violations=5, scenario=None, branch_filter=None, min_point=None, ctx=None):
+            max_violations=5, scenario=None, branch_filter=None, min_point=None, ctx=None, max_exec=None,
+            initial_stack=None):
     """Enumerate every choice list extending `prefix` with total cost <= bound.
     run(chooser) -> Result.  Points before len(prefix) are never branched.
     branch_filter(label_kind) can restrict which points are branched (used to
     split work); min_point overrides the first branchable index."""
     st = stats if stats is not None else Stats()
-    stack = [(list(prefix), expect, len(prefix) if min_point is None else min_point)]
+    stack = initial_stack if initial_stack is not None else \
+        [(list(prefix), expect, len(prefix) if min_point is None else min_point)]
+    n_here = 0
+    st.leftover = []
     while stack:
+        if max_exec is not None and n_here >= max_exec and len(stack) > 1:
+            # hand the rest of this subtree back to the master (work re-balancing): nothing is dropped
+            st.leftover = stack
+            break
+        n_here += 1
         if deadline is not None and perf() > deadline:
             st.capped = 'time'
             break
